@@ -31,9 +31,10 @@ def supOf (s : State) (d : Denom) : Supply := (AMap.get? s.supplies d).getD zero
 
 /-! ### invariants (Prop) -/
 
-/-- shape of stored contracts: the escrow never is a sender; a transfer has one coin, a direction,
+/-- shape of the contract table: one entry per id; the escrow never is a sender; a transfer has one coin, a direction,
 and a supply record for its denom; a plain contract has no direction -/
 def WF (s : State) : Prop :=
+  (s.htlcs.map (·.1)).Nodup ∧
   ∀ id c, AMap.get? s.htlcs id = some c →
     c.sender ≠ escrow ∧
     (c.transfer = true → ∃ d n, c.amount = [(d, n)] ∧ c.direction ≠ .none ∧ (AMap.get? s.supplies d).isSome) ∧
